@@ -72,12 +72,28 @@ fn state_name_uncached(naming: u8, i: u8) -> String {
     }
 }
 fn err_of(e: u8) -> Error {
+    let info = |cp: u32, pos: usize, v: DerivedPropertyValue| CodepointInfo::new(cp, pos, v);
     match e {
-        0 => Error::BadCodepoint(CodepointInfo::new(0x41, 7, DerivedPropertyValue::Disallowed)),
+        0 => Error::BadCodepoint(info(0x41, 7, DerivedPropertyValue::Disallowed)),
         1 => Error::Unexpected(UnexpectedError::Undefined),
+        2 => Error::Invalid,
+        // the whole error value space: every variant, code points that are not scalar values, extreme positions, every property value
+        3 => Error::BadCodepoint(info(0xd800, 2, DerivedPropertyValue::Disallowed)),
+        4 => Error::BadCodepoint(info(0x110000, 0, DerivedPropertyValue::Unassigned)),
+        5 => Error::BadCodepoint(info(u32::MAX, usize::MAX, DerivedPropertyValue::PValid)),
+        6 => Error::BadCodepoint(info(0, 0, DerivedPropertyValue::ContextJ)),
+        7 => Error::BadCodepoint(info(0x10ffff, 1 << 40, DerivedPropertyValue::ContextO)),
+        8 => Error::BadCodepoint(info(0x200c, 3, DerivedPropertyValue::SpecClassDis)),
+        9 => Error::BadCodepoint(info(0xe9, 1, DerivedPropertyValue::SpecClassPval)),
+        10 => Error::Unexpected(UnexpectedError::MissingContextRule(info(0xdfff, 1, DerivedPropertyValue::ContextO))),
+        11 => Error::Unexpected(UnexpectedError::MissingContextRule(info(0x66e, 0, DerivedPropertyValue::ContextJ))),
+        12 => Error::Unexpected(UnexpectedError::ContextRuleNotApplicable(info(0x110000, 5, DerivedPropertyValue::ContextJ))),
+        13 => Error::Unexpected(UnexpectedError::ContextRuleNotApplicable(info(0xb7, usize::MAX, DerivedPropertyValue::ContextO))),
+        14 => Error::Unexpected(UnexpectedError::ProfileRuleNotApplicable),
         _ => Error::Invalid,
     }
 }
+const N_ERRS: u8 = 15;
 
 impl Prog {
     fn k(&self) -> u8 {
@@ -249,6 +265,102 @@ pub fn run(run: &Run) {
     }
     // growth chains over three short states and two states beyond 64 MiB: every distinct orbit of the tables with f(i) in {i, i+1 mod 5, Err}
     // from starts 0..=3, in the four argument forms
+    // every error value of the error space, returned by the rule function on its 1st, 2nd, 3rd or 4th application, in the four argument forms:
+    // stabilize propagates exactly the rule function's error
+    run.par("error_value_space", true, |tid, n, l| {
+        let mut idx = 0usize;
+        for e in 0..N_ERRS {
+            for fail_at in 0..4u8 {
+                for arg_form in 0..4u8 {
+                    for naming in [0u8, 1] {
+                        idx += 1;
+                        if idx % n != tid {
+                            continue;
+                        }
+                        // states 0 -> 1 -> ... -> fail_at, which fails with error e
+                        let k = fail_at + 1;
+                        let table: Vec<u8> = (0..k).map(|i| if i == fail_at { k + e } else { i + 1 }).collect();
+                        let p = Prog { table, start: 0, borrow_mask: 0, arg_form, naming };
+                        l.cases += 1;
+                        if let Err(v) = check_prog(&p, l) {
+                            run.violate(v);
+                            return;
+                        }
+                    }
+                }
+            }
+        }
+    });
+    // nested use: the rule function of the outer call is itself "stabilize(inner rule), then one outer step" (a profile built on top of
+    // another stabilising profile): all pairs of functions on 3 states with two error kinds, from every start state
+    run.par("nested_stabilize_all_pairs_k3", true, |tid, n, l| {
+        let base = 5u32; // 3 states + 2 errors
+        let total = base.pow(3);
+        let decode = |mut t: u32| -> Vec<u8> { (0..3).map(|_| { let d = (t % base) as u8; t /= base; d }).collect() };
+        let name = |i: u8| format!("{i}");
+        let mut idx = 0u32;
+        for ti in 0..total {
+            for to in 0..total {
+                idx += 1;
+                if idx as usize % n != tid {
+                    continue;
+                }
+                if idx % 4096 < n as u32 && run.stopped() {
+                    return;
+                }
+                let (inner, outer) = (decode(ti), decode(to));
+                let step = |tab: &[u8], s: &str| -> RRes {
+                    match s.parse::<u8>() {
+                        Ok(i) if (i as usize) < tab.len() => {
+                            let t = tab[i as usize];
+                            if t < 3 { Ok(name(t)) } else { Err(rerr(&err_of(t - 3))) }
+                        }
+                        _ => Ok(format!("{s}a")),
+                    }
+                };
+                let imp_step = |tab: &[u8], s: &str| -> Result<String, Error> {
+                    match s.parse::<u8>() {
+                        Ok(i) if (i as usize) < tab.len() => {
+                            let t = tab[i as usize];
+                            if t < 3 { Ok(name(t)) } else { Err(err_of(t - 3)) }
+                        }
+                        _ => Ok(format!("{s}a")),
+                    }
+                };
+                for start in 0..3u8 {
+                    l.cases += 1;
+                    l.eval();
+                    let s0 = name(start);
+                    let f_in = hr(|s: &str| imp_step(&inner, s).map(Cow::Owned));
+                    let f_out = hr(|s: &str| {
+                        let mid = stabilize(s, &f_in)?;
+                        imp_step(&outer, &mid).map(Cow::Owned)
+                    });
+                    let got = match guard(|| obs(&stabilize(s0.as_str(), &f_out))) {
+                        Ok(g) => g,
+                        Err(pn) => Ok(format!("<<panic: {pn}>>")),
+                    };
+                    let want = ref_stabilize(&s0, &|s| {
+                        let mid = ref_stabilize(s, &|x| step(&inner, x))?;
+                        step(&outer, &mid)
+                    });
+                    if got != want {
+                        run.violate(Violation::new(
+                            json!({"op": "nested_stabilize", "inner": inner, "outer": outer, "start": start,
+                                   "reading": "states \"0\",\"1\",\"2\"; table[i] < 3: next state, 3: Err(BadCodepoint), 4: Err(Unexpected(Undefined)); outer rule = stabilize(s, inner rule)? then one outer step"}),
+                            fmt_res(&want),
+                            fmt_res(&got),
+                        ));
+                        return;
+                    }
+                    if want.is_ok() && ti != to {
+                        l.nt(hash64(&("nested", ti, to, start)));
+                        l.label("nested_converged");
+                    }
+                }
+            }
+        }
+    });
     let mut chains: Vec<Prog> = Vec::new();
     {
         let mut seen = std::collections::HashSet::new();
@@ -305,7 +417,7 @@ pub fn run(run: &Run) {
     });
     let mk = || {
         (1usize..=12).prop_flat_map(|k| {
-            (vec(0u8..(k as u8 + 3), k), 0u8..k as u8, any::<u32>(), 0u8..4, 0u8..6)
+            (vec(prop_oneof![6 => 0u8..(k as u8 + 3), 1 => (k as u8)..(k as u8 + N_ERRS)], k), 0u8..k as u8, any::<u32>(), 0u8..4, 0u8..6)
                 .prop_map(|(table, start, borrow_mask, arg_form, naming)| Prog { table, start, borrow_mask, arg_form, naming })
         })
     };
@@ -313,6 +425,35 @@ pub fn run(run: &Run) {
 }
 
 pub fn replay(_run: &Run, case: &Value) -> Check {
+    if case.get("op").and_then(|o| o.as_str()) == Some("nested_stabilize") {
+        let tab = |k: &str| -> Vec<u8> { case[k].as_array().unwrap().iter().map(|x| x.as_u64().unwrap() as u8).collect() };
+        let (inner, outer, start) = (tab("inner"), tab("outer"), case["start"].as_u64().unwrap() as u8);
+        let name = |i: u8| format!("{i}");
+        let step = |tab: &[u8], s: &str| -> RRes {
+            match s.parse::<u8>() {
+                Ok(i) if (i as usize) < tab.len() => if tab[i as usize] < 3 { Ok(name(tab[i as usize])) } else { Err(rerr(&err_of(tab[i as usize] - 3))) },
+                _ => Ok(format!("{s}a")),
+            }
+        };
+        let imp_step = |tab: &[u8], s: &str| -> Result<String, Error> {
+            match s.parse::<u8>() {
+                Ok(i) if (i as usize) < tab.len() => if tab[i as usize] < 3 { Ok(name(tab[i as usize])) } else { Err(err_of(tab[i as usize] - 3)) },
+                _ => Ok(format!("{s}a")),
+            }
+        };
+        let s0 = name(start);
+        let f_in = hr(|s: &str| imp_step(&inner, s).map(Cow::Owned));
+        let f_out = hr(|s: &str| {
+            let mid = stabilize(s, &f_in)?;
+            imp_step(&outer, &mid).map(Cow::Owned)
+        });
+        let got = obs(&stabilize(s0.as_str(), &f_out));
+        let want = ref_stabilize(&s0, &|s| {
+            let mid = ref_stabilize(s, &|x| step(&inner, x))?;
+            step(&outer, &mid)
+        });
+        return if got == want { Ok(()) } else { Err(Violation::new(case.clone(), fmt_res(&want), fmt_res(&got))) };
+    }
     let p = Prog {
         table: case["table"].as_array().unwrap().iter().map(|x| x.as_u64().unwrap() as u8).collect(),
         start: case["start"].as_u64().unwrap() as u8,
